@@ -12,6 +12,7 @@ import (
 	"os"
 	"regexp"
 	"runtime/debug"
+	"strings"
 	"time"
 
 	"github.com/nyaruka/gocommon/dates"
@@ -227,7 +228,18 @@ func compareTwin(sc *script, batch bool, emit func(*C02Line)) {
 			line.Diff = "session JSON differs"
 		}
 		if len(line.Diff) > 600 {
-			line.Diff = line.Diff[:600]
+			// keep the neighbourhood of the first differing character
+			if i := strings.Index(line.Diff, " R: "); i > 0 {
+				l, r := line.Diff[3:i], line.Diff[i+4:]
+				k := 0
+				for k < len(l) && k < len(r) && l[k] == r[k] {
+					k++
+				}
+				from := max(0, k-120)
+				line.Diff = "L: " + l[:min(60, len(l))] + " ... " + l[from:min(len(l), k+160)] + " R: ... " + r[from:min(len(r), k+160)]
+			} else {
+				line.Diff = line.Diff[:600]
+			}
 		}
 		emit(line)
 	}
@@ -263,7 +275,7 @@ func c02Opts() *MatOpts {
 	}}
 }
 
-const c02CtxTemplate = `@(json(object("run", run, "results", results, "input", input, "child", child, "parent", parent, "contact", contact, "fields", fields, "urns", urns, "trigger", trigger, "resume", resume, "node", node, "ticket", ticket, "globals", globals)))`
+const c02CtxTemplate = `@(format_datetime("2018-07-06T12:30:00Z")) @(format_number(1234.5)) @(format_date(today())) @(json(object("run", run, "results", results, "input", input, "child", child, "parent", parent, "contact", contact, "fields", fields, "urns", urns, "trigger", trigger, "resume", resume, "node", node, "ticket", ticket, "globals", globals)))`
 
 func behaviourScript(b *Behaviour, src string) (*script, error) {
 	opts := c02Opts()
@@ -296,7 +308,12 @@ func behaviourScript(b *Behaviour, src string) (*script, error) {
 		case "restart":
 			pending = true
 		case "resume":
-			sc.resumes = append(sc.resumes, matResume(c, i))
+			nres := len(sc.resumes)
+			if nres < len(b.Refreshes) && b.Refreshes[nres] {
+				sc.resumes = append(sc.resumes, matResumeRefresh(c, i, nres))
+			} else {
+				sc.resumes = append(sc.resumes, matResume(c, i))
+			}
 			sc.restart = append(sc.restart, pending)
 			pending = false
 		}
